@@ -29,7 +29,7 @@ LEVEL = "exploration"
 ENGINE = "per-task stack programs"
 ANCHORS = ["asphalt.core._context:Context.__aenter__", "asphalt.core._context:Context.__aexit__", "asphalt.core._context:Context.__init__",
            "asphalt.core._context:current_context", "asphalt.core._concurrent:run_background_task"]
-LEAVES = ["return", "raise", "cancel", "teardown_raises"]
+LEAVES = ["return", "raise", "cancel", "teardown_raises", "cancelled_before_enter"]
 RULE = (
     "random programs: 2-8 top-level tasks (started with no current context or inside a shared root context), each a tree of steps {check, yield 1-3, "
     "sleep, construct Context() and inspect its parent, enter a context (implicit parent / explicit foreign parent) with a nested body and one of "
@@ -245,6 +245,10 @@ class Interp:
                                     raise Marker("teardown")
 
                                 ctx.add_teardown_callback(raiser)
+                            if leave == "cancelled_before_enter":
+                                # the surrounding scope was cancelled before the context was even entered (clean-up code in a
+                                # cancelled handler): entering works, the first checkpoint in the block delivers the cancellation
+                                await checkpoint()
                             await self.run(tid, body, stack, root_tid)
                             self.check(tid, stack, "end-of-block")
                             if leave == "raise":
@@ -257,6 +261,8 @@ class Interp:
                             self.nested_now[root_tid] -= 1
 
                 with CancelScope() as scope:
+                    if leave == "cancelled_before_enter":
+                        scope.cancel()
                     try:
                         await block()
                     except Marker:
